@@ -156,7 +156,7 @@ def fanout_split_explains(calls, init, fin, shards):
             if r_['index'] in in_block or r_.get('skipped') or r_.get('pending') or r_['op'] in concdrv.BLOCK_OPS or r_.get('first') is None:
                 continue
             acts.append(Action('%d.%d' % (r_['client'], r_['index']), r_['client'], r_['first'], r_['last'], [(r_['call'], observed_of(r_))]))
-    return linearize(acts, init, fin, tolerate=True, wild=('len', 'iter', 'reversed')) is not None
+    return linearize(acts, init, fin, wild=('len', 'iter', 'reversed')) is not None
 
 
 # ---------------------------------------------------------------------------
@@ -261,11 +261,7 @@ def check_run(r, case, stats):
     acts = actions_with_blocks(r['calls'])
     init = make_ref(kind, setup)
     fin = final_matches(kind, snap)
-    res = linearize(acts, init, fin, tolerate=False)
-    if res is None:
-        res = linearize(acts, init, fin, tolerate=True)
-        if res is not None:
-            stats['anomalies'] += res[1]
+    res = linearize(acts, init, fin)
     if res is None:
         sig = 'block_not_atomic' if spans else 'not_linearizable'
         # lock-free multi-statement reads: finding iter_not_atomic of C05 (Deque indexing = len + key scan + lookup)
@@ -301,12 +297,12 @@ def check_run(r, case, stats):
                         early.add(id(rec['call']))      # the open failed while the block's transaction was still open
         if kind == 'fanout' and fanout_split_explains(r['calls'], init, fin, shards):
             sig = 'fanout_commit_not_atomic'
-        elif linearize(acts, init, None, tolerate=True) is not None:
+        elif linearize(acts, init, None) is not None:
             sig = 'final_contents_unexplained'
-        elif early and linearize(acts, init, fin, tolerate=True, wild=lambda c: id(c) in early) is not None:
+        elif early and linearize(acts, init, fin, wild=lambda c: id(c) in early) is not None:
             sig = 'uncommitted_removal_visible'
         elif any(c['op'] in multi for a in acts if not a.abort and len(a.steps) == 1 for c, _ in a.steps) and \
-                linearize([a for a in acts], init, fin, tolerate=True,
+                linearize([a for a in acts], init, fin,
                           wild=lambda c: c['op'] in multi and not any(c is cc for b, inner, _, _ in spans for cc in [q['call'] for q in inner])) is not None:
             sig = 'iter_not_atomic'
         if sig == 'fanout_commit_not_atomic':
@@ -644,7 +640,7 @@ def handover_cases(ctx):
 
 def new_stats():
     return {'runs': 0, 'blocks': 0, 'aborted': 0, 'committed': 0, 'by_depth': {}, 'by_body': {}, 'by_kind': {}, 'by_mode': {}, 'by_flavour': {},
-            'contended': 0, 'anomalies': 0, 'foreign_events_inside_blocks': 0, 'foreign_begin_attempts_inside_blocks': 0,
+            'contended': 0, 'foreign_events_inside_blocks': 0, 'foreign_begin_attempts_inside_blocks': 0,
             'abort_snapshots_compared': 0, 'overflow': 0, 'known_by_sig': {}, 'aborted_touching_files': 0}
 
 
@@ -735,7 +731,7 @@ def run(ctx, big=False):
         'runs_by_mode': stats['by_mode'], 'runs_by_flavour': stats['by_flavour'], 'runs_with_contention_reached': stats['contended'],
         'other_clients_events_inside_open_blocks': stats['foreign_events_inside_blocks'],
         'other_clients_begin_attempts_inside_open_blocks': stats['foreign_begin_attempts_inside_blocks'],
-        'abort_snapshots_compared': stats['abort_snapshots_compared'], 'tolerated_anomalies_seen': stats['anomalies'],
+        'abort_snapshots_compared': stats['abort_snapshots_compared'],
         'step_budget_overflows': stats['overflow'], 'violations_by_sig': stats['known_by_sig'], 'trace_records': len(TRACE_RECORDS)})
     res.extra_private = {'trace_records': TRACE_RECORDS}
     if not ctx.search_mode:
